@@ -1,36 +1,38 @@
-"""C02 Outbound DATA never exceeds the peer's flow-control windows."""
+"""C02 Outbound per-stream byte order, completeness and END_STREAM placement."""
 from vlib import loopygen
 
 ID = "C02"
 COMPONENTS = ["loopyord"]
 T4 = ["Loopy"]
 PROOF_MODULES = ["GrpcProofs.Properties.C02"]
-THEOREMS = ["GrpcProofs.C02." + t for t in ("placeholder",)]
+THEOREMS = ["GrpcProofs.C02." + t for t in (
+    "c02_holds", "refinement_invariant", "drained_complete", "no_panic")]
 DESIGN_REF = "DESIGN.md section 8, C02"
-TECHNIQUE = ("Lean 4 theorems by induction over the history (ledger invariant sendQuota <= peer conn window, "
-             "oiws - bytesOutStanding = peer stream window) about a line-for-line model of loopyWriter + T1 op-level differential "
-             "correspondence against the real loopyWriter/framer (frames decoded by an independent x/net/http2 Framer) + T4 constants")
-LEVEL_TEXT = ("Machine-checked Lean proof, for every history of control items and processData calls on either side (any writes, "
-              "WINDOW_UPDATEs incl. uint32 wrap-around, SETTINGS raising/lowering the initial window, resets, trailers, GOAWAY, any map "
-              "iteration order, any HPACK block length), that every DATA frame fits the peer's connection and stream windows (RFC 7540 "
-              "6.9 ledger computed from the trace), is <= 16384 bytes, and every HEADERS/CONTINUATION fragment is <= 16384 bytes; the model "
-              "is diffed op by op against the real loopyWriter on every run and the same ledger predicate is evaluated on the real frames.")
-LEVEL_NOTE = ("Trusted: Lean kernel; the hand model lean/GrpcModel/Model/Loopy.lean (tied by the differential run: frames, sendQuota, oiws, "
-              "activeStreams order, per-stream state/bytesOutStanding/queue head/writeQuota replenish after EVERY op); HPACK block length and "
-              "applySettings' map iteration order are oracle inputs of the model (theorems hold for all values). Reading: a stream's window "
-              "starts at the peer's current initial window when the stream is opened (registerStream on the server, our HEADERS on the client); "
-              "an empty DATA frame may be sent with no window (RFC 7540 6.9). Outside the model: re-registration of a stream id that is still "
-              "established (never done by the transports; the model answers UNMODELLED and the generator never produces it); Go int overflow of "
-              "bytesOutStanding (needs > 2^31 maximal WINDOW_UPDATEs on one stream).")
-GAP = ("bufWriter batching/flush timing and the run() loop's scheduling (the harness calls handle/processData itself and flushes after each); "
-       "HPACK encoding (length is an input); http2Client/http2Server producing the control items")
-ASSUMPTIONS = ["stream ids are never registered while still established (http2Client nextID, http2Server maxStreamID check)",
-               "Go int is 64 bit and bytesOutStanding does not overflow it",
-               "x/net/http2 Framer writes the frame it is asked to write (frames are re-decoded by an independent Framer instance)"]
-RULE = ("seeded random walks over all control-item kinds (6 profiles: mixed, window-starved, settings storms, trailers, big messages, control frames), "
-        "1-6 concurrent streams, message sizes around 0/5/16379/16384/16385/65535/1MiB, WINDOW_UPDATE increments incl. 0, 2^31-1, 2^32-1, "
-        "SETTINGS_INITIAL_WINDOW_SIZE incl. 0 and lowering below bytes in flight, ~35% undisciplined histories, plus 14 hand-written corner cases; "
-        "a case is non-trivial when the real writer emitted DATA and at least one stream had to wait for stream quota")
+TECHNIQUE = ("Lean 4 refinement proof (writer's per-stream item queue = unsent suffix of the application byte stream; ghost byte offsets) by "
+             "induction over the history, on top of the structural invariant Wf, about a line-for-line model of loopyWriter + T1 op-level "
+             "differential correspondence against the real loopyWriter (payload bytes of every DATA frame recognised by content hash) + T4")
+LEVEL_TEXT = ("Machine-checked Lean proof, for every history of control items and processData calls on either side, that per stream the DATA "
+              "frames carry consecutive byte ranges of exactly what the application wrote (order, no loss, no duplication, completeness once the "
+              "queue drains), END_STREAM sits only on the frame that ends the stream and no DATA follows it, trailers come only after all DATA "
+              "written before them, and no frame follows trailers / RST_STREAM / cleanupStream; the model is diffed op by op against the real "
+              "loopyWriter on every run and the same predicate is evaluated on the frames the real writer put on its conn.")
+LEVEL_NOTE = ("Trusted: Lean kernel; the hand model (tied by the differential run incl. a content hash of every DATA payload). Readings: (1) byte "
+              "identity = offset in the stream's application byte stream (concatenation of the 5-byte-prefixed messages accepted while the stream "
+              "is established); the harness fills every message with position-determined pseudo-random bytes, so a DATA payload identifies its "
+              "range (FNV-1a of the expected range, collisions ~2^-32). (2) 'no frame follows trailers': the RST_STREAM that belongs to the same "
+              "close action (serverHeaders.cleanup.rst / earlyAbortStream.rst) directly follows the trailers and is allowed (RFC 7540 8.1). "
+              "(3) The environment's obligations are part of the predicate: a stream on which http2Client/http2Server would break them is no "
+              "longer judged (ids never reused, nothing written after the client's END_STREAM item, trailers requested once, no "
+              "cleanupStream{rst:true} for a stream that has already ended on the wire, earlyAbortStream only for unregistered ids). loopy itself "
+              "does NOT guard against a late cleanupStream{rst:true}: it writes RST_STREAM for a stream that is no longer established "
+              "(cleanupStreamHandler), see final report.")
+GAP = ("http2Client.write / http2Server.write / finishStream / closeStream producing the items (the environment obligations above are theirs and are "
+       "not tied here: no T2 run over net.Pipe in this revision); mem.BufferSlice reader internals are exercised (multi-buffer payloads, empty "
+       "buffers, pooled buffers) but not modelled beyond lengths")
+ASSUMPTIONS = ["stream ids are never registered while still established", "FNV-1a 32-bit content hash identifies a byte range of the generated stream",
+               "the environment obligations listed in LEVEL_NOTE hold for http2Client/http2Server (streams where they do not are skipped)"]
+RULE = ("same generator as C01 (6 profiles + hand-written corner cases; ~35% undisciplined histories in which streams turn `wild`); payloads split "
+        "over 0-5 mem.Buffers; a case is non-trivial when the real writer emitted DATA and at least one stream had to wait for stream quota")
 
 
 def gen(rng, tier):
